@@ -34,6 +34,21 @@ CHECKS = {
    note="Trusted: simrt + instrumenter; commit tap; the reference stream is itself checked against the tap. The 'other process incarnation' bookmark comes from a real child process of the worker. Sampling only.",
    technique=TECH+"resume-from-every-bookmark differential against the commit-tap log, forged-bookmark fault injection",
    ref="DESIGN.md §7 C12"),
+ "C05": dict(level="exploration",
+   text="Seeded search over write histories, event batchings, delivery delays, controller busy times and registration times under controlled schedules (including starving the runtime's dedup/delivery goroutines and permuting map iteration); at every quiescent point (true quiescence: no runnable task, no timer within 10 virtual minutes) each probe controller's last observation of each declared input must equal the store, destroy-ready inputs must have been observed in that state, every pre-existing or changed queue primary must have been reconciled with current content, and mapped changes must have reached every primary the mapper names. Includes UpdateInputs (added and re-declared inputs), crowds of controllers on one kind, and injected List failures at the state seam.",
+   note="Trusted: simrt + instrumenter; probe controllers are harness code reading through the runtime API; quiescence horizon 10 virtual minutes. Sampling only.",
+   technique=TECH+"quiescence-point convergence oracle (last observation == store) with starvation and state-fault injection",
+   ref="DESIGN.md §7 C05"),
+ "C06": dict(level="exploration",
+   text="Seeded search over external operation histories on inputs and outputs, transform durations, finite scripts of transient transform/finalizer-removal failures and schedules, against the REAL transform.Controller / qtransform.QController (all option combinations) and destroy.Controller; at quiescence after the last fault the owned outputs must be exactly the images of the running-equivalent mapped inputs with latest content, no orphan or stale output unless held by a foreign finalizer, finalizers released once outputs are gone; a system that never goes quiet is reported as non-convergence with the controllers' error log.",
+   note="Trusted: simrt + instrumenter; image function and 'running-equivalent' rule written from the option documentation; transform callbacks are harness code. Three genuine defects found here were repaired in /repo (see known_findings.json). Sampling only.",
+   technique=TECH+"quiescence-time convergence oracle against a reference image of the inputs, with transient fault scripts",
+   ref="DESIGN.md §7 C06"),
+ "C07": dict(level="exploration",
+   text="Same world as C06 restricted to configurations with input finalizers plus the real cleanup.Controller; the finalizer-ordering invariants (finalizer on the input before the output first exists and until after it is destroyed; outputs destroyed only after tearing down with no finalizers; cleanup controller releases only after an instant without dependents; no input destroyed while a derived output exists) are evaluated on EVERY prefix of the totally ordered commit log.",
+   note="Trusted: simrt + instrumenter; commit tap. Dependents created by third parties after the teardown began are not counted against the cleanup handler. Sampling only.",
+   technique=TECH+"safety invariants checked on every prefix of the commit-tap log",
+   ref="DESIGN.md §7 C07"),
 }
 
 NOT_YET = "check not built yet in this round (planned in DESIGN.md §7); no claim is made"
